@@ -174,8 +174,32 @@ def shape_class(case):
     }
 
 
+def extend(prog, nodes, specs, by_object):
+    """Add further commands to an existing program (the documented 'modify and run again' workflow): each spec
+    references earlier commands -- by result name or as Command objects -- and becomes a new node of the model."""
+    for spec in specs:
+        n = len(nodes)
+        node = {}
+        if spec.get("A") is not None:
+            node["A"] = spec["A"] % n
+        if spec.get("L") is not None:
+            node["L"] = [c % n for c in spec["L"]]
+        if spec.get("N") is not None:
+            node["N"] = [[c % n for c in inner] for inner in spec["N"]]
+        ref = (lambda c: prog.commands[name(c)]) if by_object else name
+        args = {}
+        if "A" in node:
+            args["A"] = ref(node["A"])
+        if "L" in node:
+            args["L"] = [ref(c) for c in node["L"]]
+        if "N" in node:
+            args["N"] = [[ref(c) for c in inner] for inner in node["N"]]
+        prog.add_command(prog.find_command_class("Node"), name(n), args)
+        nodes.append(node)
+
+
 def check_case(case, rec):
-    nodes = case["nodes"]
+    nodes = list(case["nodes"])
     n = len(nodes)
     vlog.reset()
     try:
@@ -198,10 +222,16 @@ def check_case(case, rec):
 
     for si, step in enumerate(case["steps"]):
         before = len(vlog.LOG)
+        executed_before = set(executed)
         try:
             if step == "run":
                 prog.run()
-                want = set(range(n))
+                want = set(range(len(nodes)))
+            elif step[0] == "extend":
+                extend(prog, nodes, step[1], case.get("build") == "api_objects")
+                n = len(nodes)
+                want = set(executed)  # adding commands executes nothing
+                rec.label("extended_after_steps" if si else "extended_first")
             else:
                 op, i = step
                 i = i % n
@@ -233,7 +263,7 @@ def check_case(case, rec):
             break
         if ran:
             post_run_steps += 1
-            if len(vlog.LOG) != before:
+            if want == executed_before and len(vlog.LOG) != before:
                 fails.append(Failure("executes_after_run|%s" % sc, "step %d %r appended %r" % (si, step, vlog.LOG[before:])))
                 break
         executed = now
@@ -241,7 +271,7 @@ def check_case(case, rec):
             ran = True
     if not fails and ran:
         memo = {}
-        for i in range(n):
+        for i in sorted(executed):
             r = peek(prog.commands[name(i)])
             if r != expected_term(nodes, i, memo):
                 fails.append(Failure("wrong_result|%s" % sc, "%s = %r, expected %r\n%s" % (
@@ -275,6 +305,7 @@ def realise(j, refs, kinds):
 def small_dags(ctx):
     top = 3 if ctx.quick else 4
     scripts = [["run", "run", ["read", 0]], [["read_twice", 99], "run", ["read", 1], "run"]]
+    grow = ["run", ["extend", [{"A": 0}, {"L": [1, 0], "N": [[2]]}]], "run", ["read", 1], "run"]
     for n in range(1, top + 1):
         ref_choices = []
         for j in range(n):
@@ -304,6 +335,8 @@ def small_dags(ctx):
                                 continue  # half of the (order, script) pairs for the None-returning variants
                             yield {"nodes": vnodes, "order": list(order), "build": "source" if si == 0 else "api", "steps": steps}
                     if vi == 0:
+                        yield {"nodes": vnodes, "order": list(range(n)), "build": "api", "steps": grow}
+                        yield {"nodes": vnodes, "order": list(range(n)), "build": "source", "steps": grow[1:]}
                         yield {"nodes": vnodes, "order": list(range(n)), "build": "api_objects", "steps": scripts[1]}
                         yield {"nodes": vnodes, "order": list(range(n)), "build": "api_shared_lists", "steps": scripts[0]}
 
@@ -335,6 +368,14 @@ def dag_cases(draw):
                           min_size=1, max_size=12))
     if "run" not in steps and draw(st.booleans()):
         steps.insert(draw(st.integers(0, len(steps))), "run")
+    if draw(st.integers(0, 2)) == 0:
+        # the program grows between runs
+        ints = st.integers(0, 40)
+        spec = st.fixed_dictionaries({}, optional={"A": ints, "L": st.lists(ints, max_size=3), "N": st.lists(st.lists(ints, max_size=2), max_size=2)})
+        for _ in range(draw(st.integers(1, 2))):
+            steps.insert(draw(st.integers(0, len(steps))), ["extend", draw(st.lists(spec, min_size=1, max_size=3))])
+        if draw(st.booleans()):
+            steps.append("run")
     return {"nodes": nodes, "order": order, "build": draw(st.sampled_from(["source", "api", "api_objects", "api_shared_lists"])), "steps": steps}
 
 
